@@ -589,3 +589,89 @@ def emit_law(R, ctx, law, mod=None, prefix=''):
             for i in range(min(counts[label] // 8, 10)):
                 R.ok('%s[%s]#%d' % (law, label, i))
     return len(res)
+
+
+# ----------------------------------------------------------------------------------------------- the simplifier on the interpreted classes
+class SimpWorld(World):
+    """expression.py and expression_helper.py interpreted together: equality, hashing, ordering keys, visit and the simplifier all run from the source
+    (module-level state of both modules included: caches, memo tables)."""
+
+    def __init__(self, ctx):
+        World.__init__(self, ctx)
+        for st in self.hlp.toplevel():
+            if isinstance(st, ast.FunctionDef):
+                self.env[st.name] = st
+            elif isinstance(st, ast.Assign) and len(st.targets) == 1 and isinstance(st.targets[0], ast.Name) and st.targets[0].id not in self.env:
+                try:
+                    self.env[st.targets[0].id] = self.ev.ev(st.value)
+                except NotConst:
+                    pass
+        if 'expr_simp' not in self.env:
+            raise AnalysisError('expression_helper.expr_simp not found')
+
+
+def swap_groups():
+    """spellings that differ only in operand order, with operands whose hashes coincide in expression.py (hashes are XORs of the parts: a-b / b-a, c?(a,b) / c?(b,a))"""
+    A = SE.atoms()
+    x, y, z, f = A['x'], A['y'], A['z'], A['f']
+    Op, C = SE.Op, SE.C
+    d1, d2 = Op('+', x, Op('-', y)), Op('+', y, Op('-', x))
+    c1, c2 = SE.ExprCond(f, x, y), SE.ExprCond(f, y, x)
+    m1, m2 = SE.ExprMem(Op('+', x, y)), SE.ExprMem(Op('*', x, y))
+    groups = []
+    for op in ('&', '|', '^', '*', '+'):
+        groups.append(('%s:swap-sub' % op, [Op(op, d1, d2), Op(op, d2, d1)]))
+        groups.append(('%s:swap-cond' % op, [Op(op, c1, c2), Op(op, c2, c1)]))
+        groups.append(('%s:swap-nested' % op, [Op(op, Op('*', d1, z), Op('*', d2, z)), Op(op, Op('*', d2, z), Op('*', d1, z))]))
+        groups.append(('%s:xy-yx' % op, [Op(op, Op('>>', x, y), Op('>>', y, x)), Op(op, Op('>>', y, x), Op('>>', x, y))]))
+        groups.append(('%s:three' % op, [Op(op, d1, z, d2), Op(op, d2, d1, z), Op(op, z, d2, d1)]))
+    return groups
+
+
+def order_on_source(ctx):
+    """[(label, ok, message)]: every group simplified on the interpreted classes, each spelling in a fresh interpretation of both modules and again one after
+    the other in one interpretation (module-level state shared): all results of a group must be the identical expression."""
+    key = ('order-src', id(ctx))
+    if key in _CACHE:
+        return _CACHE[key]
+    out = []
+    order, _ = SE.spelling_groups()
+    groups = swap_groups() + [g for i, g in enumerate(order) if i % 3 == 0]
+    shared = SimpWorld(ctx)
+    # warm the shared interpretation with a few unrelated simplifications first (what an earlier caller in the same process would have done)
+    A = SE.atoms()
+    for e in (SE.Op('|', SE.Op('^', A['x'], SE.Op('+', A['x'], SE.C(1))), SE.Op('^', A['b'], A['c'])) if False else SE.Op('^', A['x'], SE.Op('+', A['x'], SE.C(1))), SE.Op('+', A['z'], A['y'], A['x'])):
+        shared.call('expr_simp', shared.from_native(e))
+    for label, es in groups:
+        res = []
+        for e in es:
+            fresh = SimpWorld(ctx)
+            st, r = fresh.call('expr_simp', fresh.from_native(e))
+            res.append(('fresh', e, st, fresh.to_native(r) if st == 'ok' and isinstance(r, SrcObj) else r))
+        for e in es:
+            st, r = shared.call('expr_simp', shared.from_native(e))
+            res.append(('after other calls', e, st, shared.to_native(r) if st == 'ok' and isinstance(r, SrcObj) else r))
+        bad = [t for t in res if t[2] != 'ok' or not isinstance(t[3], SE.Node)]
+        if bad:
+            out.append((label, False, 'expr_simp(%s) %s %s' % (SE.show(bad[0][1]), bad[0][2], bad[0][3])))
+            continue
+        first = res[0]
+        diff = [t for t in res[1:] if SE._k(t[3].key()) != SE._k(first[3].key()) or _strict_key(t[3]) != _strict_key(first[3])]
+        if diff:
+            t = diff[0]
+            out.append((label, False, 'expr_simp(%s) = %s (%s) but expr_simp(%s) = %s (%s)' % (SE.show(first[1]), SE.show(first[3]), first[0], SE.show(t[1]), SE.show(t[3]), t[0])))
+        else:
+            out.append((label, True, '%d spellings, fresh and after other calls: %s' % (len(es), SE.show(first[3]))))
+    _CACHE[key] = out
+    return out
+
+
+def emit_order_on_source(R, ctx):
+    from .core import where
+    W = world(ctx)
+    for label, ok, msg in order_on_source(ctx):
+        inst = 'order-src[%s]' % label
+        if ok:
+            R.ok(inst, sample='%s: %s' % (label, msg))
+        else:
+            R.violation(inst, 'simp-order-src:%s' % label, msg, where(W.hlp, W.hlp.funcs['expr_simp']))
